@@ -5,6 +5,7 @@ package internal
 import (
 	"fmt"
 	"testing"
+	"time"
 )
 
 // C04: drive the real TimerWheel with explicit times.
@@ -18,6 +19,7 @@ func TestVerifWheel(t *testing.T) {
 	for c := 0; c < ncases; c++ {
 		vsetNow(1)
 		tw := NewTimerWheel[int, int](100)
+		tw.clock.Start = time.Unix(0, 0)
 		start := int64(r.next()%(1<<50)) + 1
 		if r.chance(30) {
 			// just before a boundary of some level
